@@ -452,7 +452,17 @@ func (m *Machine) strSlice(s, lo, hi *Term) *Term {
 			}
 			return m.strLit(c[l:h])
 		}
-		panic(m.unsupported("sub-slicing an opaque (algebra) string"))
+		// opaque bytes: the sub-slice is an uninterpreted function of (bytes, bounds)
+		m.weak = appendUniq(m.weak, []string{"sub-slice of opaque bytes"}, 20)
+		m.note("sub-slice of opaque bytes modelled as uninterpreted function")
+		lt, ht := BVC(64, 0), BVC(64, ^uint64(0))
+		if lo != nil {
+			lt = BVResize(lo, 64, true)
+		}
+		if hi != nil {
+			ht = BVResize(hi, 64, true)
+		}
+		return App("uf.weak.slice", SBytes, s, lt, ht)
 	}
 	ln := mk("str.len", SInt, s)
 	var l, h *Term = IntC(0), ln
